@@ -481,4 +481,5 @@ pub fn run(ctx: &mut Ctx) {
         }
     }
     crate::spaces::depth_probes(ctx);
+    crate::spaces::nested_iteration_probes(ctx);
 }
